@@ -291,7 +291,7 @@ def check_window(ctx, P):
                         if re.search(r"slide\(arg\d\)\[", nm_) and "Div" not in nm_ and "Neg(" not in nm_:
                             sh_ = re.sub(r"curve25519::scalar::<impl curve25519::scalar::scalar\d\d::Scalar>::", "Scalar::", nm_)
                             ordv = ((1,) if co_ == -1 else (-1,) if co_ == 1 else (), "cmp(%s)" % sh_)
-            uses.append(("add" if "::add" in nm else "sub", "precomp" if "GePrecomp" in nm else "cached", idx[-60:], ordv, is_bi if "GePrecomp" in nm else is_ai))
+            uses.append(("add" if "::add" in nm else "sub", "precomp" if "GePrecomp" in nm else "cached", idx, ordv, is_bi if "GePrecomp" in nm else is_ai))
     ok = len(uses) == 4
     good = 0
     for op, kind, idx, ordv, tb in uses:
@@ -305,7 +305,7 @@ def check_window(ctx, P):
             good += 1
         if op == "sub" and vals in ((-1,), (255,)) and (sl in cmpd) and tbl_ok and "Div 2" in idx and "Neg(" in idx:
             good += 1
-    ctx.check(ok and good == 4, "window", "digit-use", "digit d > 0: + table[d/2]; d < 0: - table[-d/2]; a-digits use ai, b-digits use BI", "double_scalarmult_vartime does not add table[|d|/2] for positive and subtract it for negative digits from the right tables: %s" % uses, where=fn.where(), key="window:digit-use")
+    ctx.check(ok and good == 4, "window", "digit-use", "digit d > 0: + table[d/2]; d < 0: - table[-d/2]; a-digits use ai, b-digits use BI", "double_scalarmult_vartime does not add table[|d|/2] for positive and subtract it for negative digits from the right tables: %s" % [(u_[0], u_[1], u_[2][-60:], u_[3], u_[4]) for u_ in uses], where=fn.where(), key="window:digit-use")
 
 
 def _zero_key_fold_form(P, fn, dv):
